@@ -652,15 +652,20 @@ func UtxoValidateValueNotConservedUtxo(
 	if fee := tx.Fee(); fee != nil {
 		producedValue.Add(producedValue, fee)
 	}
+	// Pools registered by an earlier certificate of this transaction. A further registration
+	// certificate for the same pool is a re-registration and pays no deposit
+	newPools := make(map[common.Blake2b224]struct{})
 	for _, cert := range tx.Certificates() {
 		switch tmpCert := cert.(type) {
 		case *common.PoolRegistrationCertificate:
-			reg, _, err := ls.PoolCurrentState(common.Blake2b224(tmpCert.Operator))
+			poolId := common.Blake2b224(tmpCert.Operator)
+			reg, _, err := ls.PoolCurrentState(poolId)
 			if err != nil {
 				return err
 			}
-			if reg == nil {
+			if _, ok := newPools[poolId]; reg == nil && !ok {
 				producedValue.Add(producedValue, new(big.Int).SetUint64(uint64(tmpPparams.PoolDeposit)))
+				newPools[poolId] = struct{}{}
 			}
 		case *common.StakeRegistrationCertificate:
 			producedValue.Add(producedValue, new(big.Int).SetUint64(uint64(tmpPparams.KeyDeposit)))
